@@ -47,7 +47,7 @@ def run(ctx):
         return
     core.build_harness(bins=["solve"])
     rng = ctx.rng
-    progs, items = sc.fragment_items(rng, ctx.n(60, 2500), 6, 6, 0)
+    progs, items = sc.fragment_items(rng, ctx.n(50, 700), 6, 6, 0)
     items = [it for it in items if not pg.has_exists(it.goal)]
     solvers = collections.OrderedDict((k, v[0]) for k, v in CONFIGS.items())
     mism, perr = sc.run_items(items, solvers=solvers, cpu=ctx.n(4, 6), timeout=ctx.n(600, 3000))
@@ -105,7 +105,7 @@ def run(ctx):
         for cname, (sv, max_size, od) in CONFIGS.items():
             ans = it.answers[cname][1]
             kind = logic.answer_kind(ans)
-            within = stats != 0 and msize <= max_size and (od is None or natoms < od)
+            within = stats != 0 and msize <= max_size and (od is None or natoms + 4 <= od)
             nontrivial = it.kind != "atom" or it.shape not in ("random",) or truth == 1
             ctx.count(cname, (it.key(), cname), nontrivial=nontrivial)
             hist["%s:%s:%s" % (cname, "T" if truth == 1 else "F", kind)] += 1
